@@ -7,7 +7,7 @@ import json, os, shutil, subprocess, sys, time
 from concurrent.futures import ThreadPoolExecutor
 ROOT = os.path.dirname(os.path.dirname(os.path.abspath(__file__)))
 sys.path.insert(0, os.path.join(ROOT, "mutants"))
-from mutants import M
+from mutants import M, REVERTS
 args = [a for a in sys.argv[1:] if not a.startswith("--")]
 tier, jobs = "quick", 3
 for a in sys.argv[1:]:
@@ -16,7 +16,11 @@ for a in sys.argv[1:]:
     if a.startswith("--jobs="):
         jobs = int(a.split("=")[1])
 if args and args[0] == "all":
-    work = [(n, p) for n, (props, _, _, _) in M.items() for p in props]
+    work = [(n, p) for n, (props, _, _, _) in M.items() for p in props] + [(n, p) for n, (_, props) in REVERTS.items() for p in props]
+elif args and args[0] == "reverts":
+    work = [(n, p) for n, (_, props) in REVERTS.items() for p in props]
+elif args[0] in REVERTS:
+    work = [(args[0], p) for p in (args[1:] or REVERTS[args[0]][1])]
 else:
     work = [(args[0], p) for p in (args[1:] or M[args[0]][0])]
 BASE = "/tmp/mutw"
@@ -42,14 +46,23 @@ def worker(i, items):
     r, v = setup(i)
     try:
         for name, pid in items:
-            props, file, old, new = M[name]
-            path = os.path.join(r, file)
-            src = open(path).read()
-            if src.count(old) != 1:
-                out.append(dict(mutant=name, check=pid, rc="pattern"))
-                print("MUTANT %-32s %s pattern occurs %d times" % (name, pid, src.count(old)), flush=True)
-                continue
-            open(path, "w").write(src.replace(old, new))
+            if name in REVERTS:
+                rv = subprocess.run(["git", "-C", r, "revert", "-n", "--no-edit", REVERTS[name][0]], capture_output=True, text=True)
+                if rv.returncode != 0:
+                    subprocess.run(["git", "-C", r, "reset", "--hard", "-q", "HEAD"])
+                    out.append(dict(mutant=name, check=pid, rc="conflict"))
+                    print("MUTANT %-32s %s revert conflicts" % (name, pid), flush=True)
+                    continue
+                path, src = None, None
+            else:
+                props, file, old, new = M[name]
+                path = os.path.join(r, file)
+                src = open(path).read()
+                if src.count(old) != 1:
+                    out.append(dict(mutant=name, check=pid, rc="pattern"))
+                    print("MUTANT %-32s %s pattern occurs %d times" % (name, pid, src.count(old)), flush=True)
+                    continue
+                open(path, "w").write(src.replace(old, new))
             try:
                 env = dict(os.environ, VERIF_REPO=r, VERIF_REPLAY_DIR="%s/replays%d" % (BASE, i), VERIF_EVIDENCE_DIR="%s/evidence%d" % (BASE, i))
                 t0 = time.time()
@@ -60,7 +73,10 @@ def worker(i, items):
                     print(p.stdout[-800:], flush=True)
                 out.append(dict(mutant=name, check=pid, rc=p.returncode, secs=round(time.time() - t0), sig=sig[:2]))
             finally:
-                open(path, "w").write(src)
+                if path:
+                    open(path, "w").write(src)
+                else:
+                    subprocess.run(["git", "-C", r, "reset", "--hard", "-q", "HEAD"])
     finally:
         teardown(i)
     return out
